@@ -9,12 +9,12 @@ EXTENDS Gate, Json
 CONSTANTS MaxLen, Side, Cfgs
 VARIABLES cfg, s, hist, last
 vars == <<cfg, s, hist, last>>
-Alphabet == IF Side = "server" THEN {"cer_ok", "cer_bad", "cer_noid", "cer_sec", "dwr", "ccr", "cca", "ulr", "rar", "cer_ok_wfail", "ccr_e", "raa_e", "cer_sec_ccr", "dwa"}
-            ELSE {"cea_ok", "cea_fail", "dwr", "ccr", "cca", "ulr", "rar", "cer_ok", "ccr_e", "raa_e", "dwa", "dup_other"}
+Alphabet == IF Side = "server" THEN {"cer_ok", "cer_bad", "cer_noid", "cer_sec", "dwr", "ccr", "cca", "ulr", "rar", "cer_ok_wfail", "ccr_e", "raa_e", "cer_sec_ccr", "dwa", "cer_bad_nom"}
+            ELSE {"cea_ok", "cea_fail", "dwr", "ccr", "cca", "ulr", "rar", "cer_ok", "ccr_e", "raa_e", "dwa", "dup_other", "cea_2002"}
 Init == cfg \in Cfgs /\ s = Init0 /\ hist = <<>> /\ last = Quiet(Init0)
 Recv(m) == /\ Len(hist) < MaxLen
-           /\ (Side = "client" /\ m \in {"cea_ok", "cea_fail"}) => ~(\E i \in 1..Len(hist) : hist[i] \in {"cea_ok", "cea_fail"})
-           /\ (m = "dup_other") => cfg = "all" /\ ~(\E i \in 1..Len(hist) : hist[i] \in {"cea_ok", "cea_fail", "dup_other"})   \* once, while the dial waits
+           /\ (Side = "client" /\ m \in {"cea_ok", "cea_fail", "cea_2002"}) => ~(\E i \in 1..Len(hist) : hist[i] \in {"cea_ok", "cea_fail", "cea_2002"})
+           /\ (m = "dup_other") => cfg = "all" /\ ~(\E i \in 1..Len(hist) : hist[i] \in {"cea_ok", "cea_fail", "cea_2002", "dup_other"})   \* once, while the dial waits
            /\ LET x == Step(Side, cfg, s, m) IN s' = x.s /\ last' = x
            /\ hist' = Append(hist, m) /\ UNCHANGED cfg
 Next == \E m \in Alphabet : Recv(m)
